@@ -9,12 +9,13 @@ import JsonV.Model.Validate
 import JsonV.Spec.Grammar
 import JsonV.Lemmas.WireBasic
 import JsonV.Lemmas.WireNumberScan
+import JsonV.Lemmas.WireString
 import JsonV.Gen.Constants
 import JsonV.Gen.Tables
 
 namespace JsonV.Props.C01
 open JsonV JsonV.Model.Wire JsonV.Model.Validate JsonV.Spec.Grammar
-open JsonV.Lemmas.WireBasic JsonV.Lemmas.WireNumber
+open JsonV.Lemmas.WireBasic JsonV.Lemmas.WireNumber JsonV.Lemmas.WireString
 
 /-! ### Tie A: regenerated constants and tables = what the models use -/
 
@@ -153,5 +154,36 @@ example : consumeNumber [0x2D, 0x78] = (1, .invalidChar) := by decide
 example : JNumber [0x2D, 0x30, 0x2E, 0x35] :=
   JNumber.mk [0x2D] [0x30] [0x2E, 0x35] [] (by simp) JInt.zero
     (JFrac.some [0x35] ⟨by simp, by intro c hc; simp at hc; subst hc; unfold Digit; decide⟩) JExp.none
+
+/-- The inlinable fast path is sound: a non-zero `ConsumeSimpleNumber` is exactly `ConsumeNumber`'s answer. -/
+theorem simple_number_sound (b : Bytes) (n : Nat) (h : consumeSimpleNumber b = n) (hn : n > 0) :
+    consumeNumber b = (n, .ok) := by
+  subst h; exact simple_number_sound' b (by omega)
+
+example : consumeSimpleNumber [0x34, 0x32, 0x2C] = 2 := by decide
+
+/-! ### Strings -/
+
+/-- A non-zero `ConsumeSimpleString` is exactly `ConsumeString`'s answer (either UTF-8 mode),
+and the string is verbatim and canonical (no flag set). -/
+theorem simple_string_sound (b : Bytes) (v : Bool) (n : Nat) (h : consumeSimpleString b = n) (hn : n > 0) :
+    consumeString b v = (n, {}, .ok) := by
+  subst h; exact simple_string_sound' b v (by omega)
+
+example : consumeSimpleString [0x22, 0x61, 0x22, 0x3A] = 3 := by decide
+
+/-- Soundness of `ConsumeString`: what it accepts is a string of the grammar, in strict mode
+(`validateUTF8 = true`: well-formed UTF-8, surrogate escapes paired) or in lax mode. -/
+theorem string_sound (b : Bytes) (v : Bool) (n : Nat) (f : ValueFlags) (h : consumeString b v = (n, f, .ok)) :
+    n ≤ b.length ∧ JString v (b.take n) :=
+  consumeString_sound b v n f h
+
+/-- The full characterisation (all byte strings): acceptance ⇔ membership, which also gives that
+strings are prefix-free.  Only `string_sound` (⇒) is proved; ⇐ is validated by correspondence. -/
+def string_iff_full : Prop :=
+  ∀ (b : Bytes) (v : Bool) (n : Nat), (∃ f, consumeString b v = (n, f, .ok)) ↔ n ≤ b.length ∧ JString v (b.take n)
+
+-- `"a\u00e9"` + `,` : 10 bytes accepted, non-verbatim (flag 1) and non-canonical (flag 2: é must not be escaped)
+example : consumeString [0x22, 0x61, 0x5C, 0x75, 0x30, 0x30, 0x65, 0x39, 0x22, 0x2C] true = (9, ⟨true, true⟩, .ok) := by decide
 
 end JsonV.Props.C01
